@@ -1091,7 +1091,7 @@ fn wm_batch(out: &mut Out, rng: &mut Rng, len: usize, sigma: u64, pairs: bool) {
 
 type Touch = (u64, usize, Res<()>); // accessor (0 view[i], 1 word(i), 2 bit(i), 3 get(i)), index, outcome
 
-// probes of IntVectorMapper::get on a view whose width element is above 64: (len, width, [(index, outcome)])
+// probes of IntVectorMapper::get on a view that `new` returned: (len, width, [(index < len, outcome)])
 type Wide = (usize, usize, Vec<(usize, Res<()>)>);
 
 fn m_within(offset: usize, elems: Option<usize>, maplen: usize) -> bool {
@@ -1214,15 +1214,13 @@ impl<'a> MView<'a> for IntVectorMapper<'a> {
         let raw: &RawVectorMapper<'a> = self.as_ref();
         touch_at(t, 1, "IntVectorMapper.as_ref().word", &ends(raw.claimed()), |i| { std::hint::black_box(raw.word(i)); });
         touch_at(t, 2, "IntVectorMapper.as_ref().bit", &ends(raw.len()), |i| { std::hint::black_box(raw.bit(i)); });
-        // widths the library writes; the others are probed separately (CMGet)
+        // a width above 64 is refused by `new` since the repair of finding F14; should such a view exist, its get is
+        // probed in the case of its own (CMGet)
         if self.width() <= 64 {
             touch_at(t, 3, &format!("IntVectorMapper(len={},width={}).get", self.len(), self.width()), &ends(self.len()), |i| { std::hint::black_box(self.get(i)); });
         }
     }
     fn wide(&self) -> Option<Wide> {
-        if self.width() <= 64 {
-            return None;
-        }
         let len = self.len();
         let mut idxs: Vec<usize> = vec![0, 1, 2, 63, 64, len / 2, 1usize << 63, len.wrapping_sub(65), len.wrapping_sub(2), len.wrapping_sub(1)];
         idxs.retain(|i| *i < len);
@@ -1231,7 +1229,11 @@ impl<'a> MView<'a> for IntVectorMapper<'a> {
         let mut gets = Vec::new();
         for i in idxs.iter() {
             mark(&format!("IntVectorMapper(len={},width={}).get({})", len, self.width(), i));
-            gets.push((*i, catch(|| { std::hint::black_box(self.get(*i)); })));
+            let r = match catch(|| { std::hint::black_box(self.get(*i)); }) {
+                Res::Panic(_, msg) if msg == "Index is out of bounds" => Res::Panic(P_ASSERT, msg),
+                other => other,
+            };
+            gets.push((*i, r));
         }
         Some((len, self.width(), gets))
     }
@@ -1281,12 +1283,8 @@ fn m_observe<'a, T: MView<'a>>(map: &'a MemoryMap, name: &str, offset: usize, wi
             let inside = v.inside(map.len());
             let mut touch = Vec::new();
             v.touch(&mut touch);
-            // without the bounds hooks the probe would really read outside the mask table (finding F14): the
-            // sanitizer run of the thorough tier leaves it out
-            if cfg!(feature = "hooks") {
-                if let Some(w) = v.wide() {
-                    wide.push((offset, w));
-                }
+            if let Some(w) = v.wide() {
+                wide.push((offset, w));
             }
             MObs::Ok { mo, ml, claimed, inside, touch }
         }
@@ -1511,14 +1509,27 @@ fn mapped_batch(out: &mut Out, path: &std::path::Path, bytes: &[u8], desc: &str,
         out.case("mapped", format!("CMapped {} {} {} [{}]", b(DBG), nlist(&file), coq, terms.join("; ")),
             format!("{{\"struct\":\"mapped views\",\"view\":{:?},\"file_of\":{:?},\"elements\":{:?},\"view_outside_map\":{},\"oob\":{},\"views\":[{}]}}",
                 name, desc, file, outside, oob, js.join(",")), true);
-        for (off, (len, width, gets)) in wide.iter() {
-            let hit = gets.iter().any(|g| class_of(&g.1) == 9);
-            out.stat(if hit { "mapped.wide_get.oob" } else { "mapped.wide_get.clean" });
-            let gt: Vec<String> = gets.iter().map(|(i, r)| format!("({}, {})", nz(*i), ires(r, |_| "tt".to_string()))).collect();
-            let gj: Vec<String> = gets.iter().map(|(i, r)| format!("{:?}", format!("get({})={}", i, class_of(r)))).collect();
-            out.case("mapped_get", format!("CMGet {} {} {} {} [{}]", b(DBG), nlist(&file), b(ty == 12), nz(*off), gt.join("; ")),
-                format!("{{\"probe\":\"IntVectorMapper::get, width element above 64\",\"file_of\":{:?},\"elements\":{:?},\"offset\":{},\"through_option\":{},\"len\":{},\"width\":{},\"oob\":{},\"gets\":[{}]}}",
-                    desc, file, off, ty == 12, len, width, hit, gj.join(",")), true);
+        // get() at extreme indexes of every integer-vector view `new` returned (its len element is whatever the file
+        // holds; its width element must be one the mask table covers)
+        if !wide.is_empty() {
+            let mut pt: Vec<String> = Vec::new();
+            let mut pj: Vec<String> = Vec::new();
+            let (mut hit, mut badw) = (false, false);
+            for (off, (len, width, gets)) in wide.iter() {
+                let h = gets.iter().any(|g| class_of(&g.1) == 9);
+                hit |= h;
+                badw |= *width == 0 || *width > 64;
+                out.stat(if h { "mapped.get_probe.oob" } else { "mapped.get_probe.clean" });
+                out.stat(if *len >= (1usize << 61) { "mapped.get_probe.huge_len_element" } else { "mapped.get_probe.small_len_element" });
+                out.stat_n("mapped.get_probe.calls", gets.len() as u64);
+                let gt: Vec<String> = gets.iter().map(|(i, r)| format!("({}, {})", nz(*i), ires(r, |_| "tt".to_string()))).collect();
+                let gj: Vec<String> = gets.iter().map(|(i, r)| format!("{:?}", format!("get({})={}", i, class_of(r)))).collect();
+                pt.push(format!("({}, {}, {}, [{}])", nz(*off), nu(*len), nu(*width), gt.join("; ")));
+                pj.push(format!("{{\"offset\":{},\"len\":{},\"width\":{},\"gets\":[{}]}}", off, len, width, gj.join(",")));
+            }
+            out.case("mapped_get", format!("CMGet {} {} {} [{}]", b(DBG), nlist(&file), b(ty == 12), pt.join("; ")),
+                format!("{{\"probe\":\"IntVectorMapper::get on every accepted view\",\"file_of\":{:?},\"elements\":{:?},\"through_option\":{},\"width_outside_1_64\":{},\"oob\":{},\"views\":[{}]}}",
+                    desc, file, ty == 12, badw, hit, pj.join(",")), true);
         }
     }
     drop(map);
